@@ -18,17 +18,27 @@ META = {
             "generated font the model's tree (file set, layercontents order, contents, dictionary keys, object libs, "
             "feature bytes) is the saved tree and the model's load of that tree is what Font::load returns; the "
             "property's own predicate (dump(load(save(f))) = f with the stated tolerances) is evaluated on every font "
-            "under two independently drawn write options.",
+            "under two independently drawn write options.  The `_real` theorems instantiate the parts: real glif codec "
+            "(C02_roundtrip), font info (C13), groups / kerning maps (C15), and, in the `_all_files` theorems, tree-level "
+            "codecs of all seven plist files (metainfo, layercontents, contents, lib, layerinfo, groups, kerning) built on "
+            "the plist value codec; remaining hypotheses are the std text facts (L1) and the stated domains.  The seven "
+            "file codecs are tied to the code on every run: for each plist file norad wrote, the model writes exactly the "
+            "XML tree on disk for the value an independent reader finds in it (element kinds, key order, key presence, "
+            "<integer> versus <real>) and reads that tree back as that value.",
     "note": "Parametric in the per-part codecs and their round-trip laws (sig_ok): discharged per part by C02 (glif), "
             "C13/C14 (font info, numbers), C15 (groups, kerning) and the plist/XML layer hypotheses; an instance of the "
             "laws is exhibited. Known-finding classes are exactly the complements of the parts' validity (wf).",
 }
-COQ_TARGETS = ["Props/C01.vo", "Run/C01.vo"]
+COQ_TARGETS = ["Props/C01.vo", "Run/C01.vo", "Run/FontFiles.vo"]
 PROPS_FILES = ["C01"]
 TRUSTED = [
     "model Model/FontRT.v hand-written from src/font.rs, src/layer.rs, src/fontinfo.rs (object libs); tied by the "
     "correspondence run (saved tree, loaded font skeleton) and by the file-name anchors",
-    "laws sig_ok of the per-part codecs: hypotheses of every theorem, instance toy_ok",
+    "laws sig_ok of the per-part codecs: hypotheses of every theorem, instance toy_ok; for the real instance they "
+    "are proved (Proofs/FontRealP.v, FontRealPlistP.v, FontRealFilesP.v) from the L1 hypotheses",
+    "models Model/FontRealPlist.v, Model/FontRealFiles.v (serde shape of each plist file) hand-written from src/font.rs, "
+    "src/layer.rs, src/kerning.rs, src/groups.rs; tied by the file-codec correspondence (lib/fontfiles_corr.py, "
+    "Run/FontFiles.v); number text taken from the files (L1)",
     "harness/src/fontio.rs build_font / dump_font (public API only), lib/ufoio.py equal() for the tolerances",
     "Coq 8.16.1 kernel and vm_compute; no axioms; no extraction",
 ]
@@ -249,6 +259,17 @@ def _stream(ctx, fc, tag, seed, count, gen, known_ids, stats, corr, fonts_file=N
                 corr["load"].append((tag + "/" + case, fc.tree_term(nufo), fc.e_ok(fc.e_font(fc.font_obs(loaded)))))
             except Exception as e:
                 ctx.disagreements.append({"what": "cannot build the correspondence case", "case": case, "stream": tag, "error": repr(e)})
+            if "files" in corr:
+                # the seven plist files norad wrote, against the tree-level file codecs (both option sets now and then)
+                import fontfiles_corr as ffc
+                for which in ("n.ufo", "n2.ufo") if k % 4 == 0 else ("n.ufo",):
+                    try:
+                        pert = corr["files_perturbed"] if len(corr["files_perturbed"]) < 80 else None
+                        for rel, e in ffc.checks_written(os.path.join(cd, which), pert):
+                            corr["files"].append(("%s/%s/%s/%s" % (tag, case, which, rel), e))
+                    except Exception as e:
+                        ctx.disagreements.append({"what": "cannot build the file-codec case", "case": case, "stream": tag,
+                                                  "ufo": which, "error": repr(e)})
     return fonts
 
 
@@ -261,7 +282,7 @@ def run(ctx, known, built):
     n_main = 12000 if thorough else 420
     n_special = 600 if thorough else 60
     n_class = 300 if thorough else 20
-    corr = {"save": [], "load": []}
+    corr = {"save": [], "load": [], "files": [], "files_perturbed": []}
     verif = os.path.dirname(os.path.dirname(os.path.dirname(os.path.abspath(__file__))))
     # corpus first: the witnesses of the known classes
     cdir = os.path.join(verif, "corpus", "C01")
@@ -321,6 +342,23 @@ def run(ctx, known, built):
     if not built:
         ctx.disagreements.append({"what": "Coq development does not build; correspondence not evaluated"})
     else:
+        import fontfiles_corr as ffc
+        items = corr["files"]
+        codes = ffc.eval_codes(ctx, "files", [e for _, e in items])
+        bad = [(i, c) for i, c in enumerate(codes) if c != 0]
+        nd += len(bad)
+        for i, c in bad[:10]:
+            ctx.disagreements.append({"what": "file codec model and implementation differ: " +
+                                      (ffc.CODES.get(c, str(c)) if isinstance(c, int) else "evaluation failed"),
+                                      "file": items[i][0], "seed": ctx.seed, "coq_check": c if not isinstance(c, int) else c,
+                                      "expression": items[i][1][:3000]})
+        ctx.obligation("correspondence:C01 plist file codecs (%d files)" % len(items), not bad and len(items) > 0,
+                       "%d of %d files differ" % (len(bad), len(items)))
+        pitems = corr["files_perturbed"]
+        pcodes = ffc.eval_codes(ctx, "files_perturbed", [e for _, e in pitems])
+        missed = [pitems[i][0] for i, c in enumerate(pcodes) if c == 0 or not isinstance(c, int)]
+        ctx.obligation("selftest:C01 file-codec comparison rejects perturbed trees (%d)" % len(pitems),
+                       not missed and len(pitems) > 0, "not rejected: %s" % missed[:5])
         for name, fn, jfn in (("save", "c_save", "j_save"), ("load", "c_load", "j_load")):
             items = corr[name]
             res = fc.eval_checks(ctx, name, fn, [(t, e) for _, t, e in items], shard=max(8, len(items) // 16 + 1))
@@ -344,7 +382,7 @@ def run(ctx, known, built):
         "rule": "every generated or derived font (distinct by construction of the seeded generator) is saved twice with "
                 "independently drawn options and loaded back; non-trivial = all of them.",
         "exhaustive": False,
-        "traces_validated_against_impl": sum(len(v) for v in corr.values()),
+        "traces_validated_against_impl": sum(len(v) for k9, v in corr.items() if k9 != "files_perturbed"),
         "input_distribution": {"main_stream_fonts": n_main, "special_cases": len(sp), "api_history_fonts": len(hf),
                                "per_known_class": n_class,
                                "distinct_write_options": len(stats["options"]),
